@@ -435,7 +435,10 @@ func init() {
 					}{{"#frag", "yes"}, {"#", "yes"}, {"#a_b", "no"}, {"#" + strings.Repeat("x", 65), "no"}, {"urn:uuid:00000000-0000-0000-0000-000000000001", "yes"}, {"urn:oid:1.2.3", "yes"},
 						{"http://example.org/fhir/ValueSet/x|1.0", "no"}, {"http://example.org/fhir/ValueSet/x#f", "no"}, {"http://example.org/other/thing", "yes"}, {"", "no"}, {"Patient", "no"}, {"Patient/", "no"},
 						{"/Patient/1", "any"}, {"NotAType/1", "no"}, {"patient/1", "no"}, {"Patient/1/_history", "no"}, {"Patient/1/_history/", "no"}, {"Patient/1/extra", "no"}, {"Patient/1/_history/2/3", "no"},
-						{"http://h", "any"}, {"http://h/", "any"}, {"mailto:x@y", "yes"}, {"http://[::1", "no"}, {"%zz", "no"}, {" ", "no"}, {"Patient/1 ", "no"}}
+						{"http://h", "any"}, {"http://h/", "any"}, {"mailto:x@y", "yes"},
+						// spellings a URL library would normalise: a literal is kept as it was written
+						{"URN:uuid:00000000-0000-0000-0000-000000000001", "any"}, {"Urn:oid:1.2.3", "any"}, {"HTTP://example.org/other/thing", "any"}, {"HTTP://h/fhir/Patient/1", "any"}, {"http://EXAMPLE.org/other/a%2fb", "any"},
+						{"http://example.org/other/caf\u00e9", "any"}, {"urn:uuid:00000000-0000-0000-0000-00000000000A", "any"}, {"http://[::1", "no"}, {"%zz", "no"}, {" ", "no"}, {"Patient/1 ", "no"}}
 					for _, f := range forms {
 						r.State("special|" + f.accept)
 						l, err, pi := c19TryLit(f.s)
